@@ -26,6 +26,7 @@ type docParams struct {
 	Layout []int `json:"layout,omitempty"`
 	Rows   int   `json:"rows,omitempty"`   // lines per column on two-column pages
 	ColMaj bool  `json:"colmaj,omitempty"` // two-column pages: content stream shows the left column first (else row by row)
+	Head   []int `json:"head,omitempty"`   // 1-based pages that start with a heading line in a large font
 }
 
 const (
@@ -39,8 +40,23 @@ func (d docParams) key() string {
 	if d.mixed() {
 		k += fmt.Sprintf("-%v-%d-%v", d.Layout, d.Rows, d.ColMaj)
 	}
+	if len(d.Head) > 0 {
+		k += fmt.Sprintf("-head%v", d.Head)
+	}
 	return k
 }
+
+func (d docParams) hasHead(p int) bool {
+	for _, h := range d.Head {
+		if h == p {
+			return true
+		}
+	}
+	return false
+}
+
+// headToken is the text token of the heading line of page p.
+func (d docParams) headToken(p int) string { return fmt.Sprintf("HEAD-%d-%s", p, d.Tag) }
 
 // layoutOf is the layout of page p (1-based).
 func (d docParams) layoutOf(p int) int {
@@ -148,6 +164,9 @@ func (d docParams) spec() docSpec {
 		if !d.isBlank(p) {
 			if d.HF {
 				ps.lines = append(ps.lines, textLine{x: 72, y: 760, s: "Quarterly Report"})
+			}
+			if d.hasHead(p) {
+				ps.lines = append(ps.lines, textLine{x: 72, y: 720, s: d.headToken(p) + " Title", size: 22})
 			}
 			switch d.layoutOf(p) {
 			case layTwoCol:
@@ -477,15 +496,10 @@ type seqOp struct {
 	C *call  `json:"c,omitempty"`
 }
 
-// modelToken is the operation as the builder model knows it: IsCharacterLevel
-// has the frame of IsMultiColumn (open the reader if needed, read page 1,
-// answer a flag, leave the reader open), so it is sent as "m".
-func (o seqOp) modelToken() string {
-	if o.K == "h" {
-		return "m" + strconv.Itoa(o.E)
-	}
-	return o.token()
-}
+// modelToken is the operation as sent to the builder model (IsCharacterLevel used to be
+// sent as IsMultiColumn, whose frame it shares; the model now has it as an operation of
+// its own).
+func (o seqOp) modelToken() string { return o.token() }
 
 func (o seqOp) token() string {
 	if o.K == "d" {
